@@ -1,7 +1,7 @@
 /* C04 implementation driver: spinlock / synclock / mutex mutual exclusion, call_once,
  * reference counter, run under the deterministic scheduler (harness/vsched).
  * Case lines:
- *   lock <spin|sync|mutex> <nthreads> <iters>
+ *   lock <spin|sync|mutex|try> <nthreads> <iters>      (try: acquire by a muggle_mutex_trylock / yield loop)
  *   once <nthreads>
  *   refcnt <init> <script0> <script1> ...      script letters: r = retain, d = release
  *   sched <spec>                                (see vsched.h)
@@ -13,6 +13,8 @@
 #include "muggle/c/sync/mutex.h"
 #include "muggle/c/sync/call_once.h"
 #include "muggle/c/sync/ref_cnt.h"
+#include "muggle/c/base/err.h"
+#include <sched.h>
 
 static char scen[64], sched[4096];
 static int nthreads, iters, refinit;
@@ -21,7 +23,7 @@ static char scripts[VS_MAXT][64];
 static muggle_spinlock_t spin;
 static muggle_sync_t synclock;
 static muggle_mutex_t mutex;
-static int kind; /* 0 spin 1 sync 2 mutex */
+static int kind; /* 0 spin 1 sync 2 mutex 3 mutex through trylock */
 static volatile int in_cs, counter, overlaps;
 
 static void lock_thread(void *arg)
@@ -30,7 +32,8 @@ static void lock_thread(void *arg)
 	for (int i = 0; i < iters; i++) {
 		if (kind == 0) muggle_spinlock_lock(&spin);
 		else if (kind == 1) muggle_synclock_lock(&synclock);
-		else muggle_mutex_lock(&mutex);
+		else if (kind == 2) muggle_mutex_lock(&mutex);
+		else { while (muggle_mutex_trylock(&mutex) != MUGGLE_OK) sched_yield(); }
 		in_cs++;
 		if (in_cs != 1) { overlaps++; vs_note("enter OVERLAP"); } else vs_note("enter");
 		int c = counter;
@@ -81,7 +84,7 @@ static void case_line(char *line)
 	if (strcmp(op, "lock") == 0) {
 		char k[16];
 		sscanf(line, "%*s %15s %d %d", k, &nthreads, &iters);
-		kind = strcmp(k, "spin") == 0 ? 0 : strcmp(k, "sync") == 0 ? 1 : 2;
+		kind = strcmp(k, "spin") == 0 ? 0 : strcmp(k, "sync") == 0 ? 1 : strcmp(k, "try") == 0 ? 3 : 2;
 		strcpy(scen, "lock");
 	} else if (strcmp(op, "once") == 0) {
 		sscanf(line, "%*s %d", &nthreads);
@@ -129,7 +132,7 @@ static void case_end(void)
 		fflush(stdout);
 		_exit(77);
 	}
-	if (strcmp(scen, "lock") == 0 && kind == 2) muggle_mutex_destroy(&mutex);
+	if (strcmp(scen, "lock") == 0 && kind >= 2) muggle_mutex_destroy(&mutex);
 }
 
 #include <unistd.h>
